@@ -216,6 +216,10 @@ pub struct WireConfig {
     /// packets come from (handshakes with them end in UnverifiableEnr, the session still works)
     #[serde(default)]
     pub nat_peers: Vec<u8>,
+    /// what a NAT peer's record advertises: 0 another ip and port, 1 the same ip with another port,
+    /// 2 another ip with the same port, 3 no address at all (then the record is acceptable)
+    #[serde(default)]
+    pub nat_kind: u8,
     /// peers (index) whose APPLICATION answers record requests (FINDNODE [0]) with a validly signed
     /// record of another identity that carries no address (a byzantine application behind an
     /// honest transport)
@@ -335,10 +339,10 @@ pub fn attacker_key(j: u8) -> CombinedKey {
     keys::key(500 + (j % 3) as u32)
 }
 
-fn node_record(key: &CombinedKey, addr: SocketAddr, seq: u64) -> Enr {
+fn node_record(key: &CombinedKey, addr: Option<SocketAddr>, seq: u64) -> Enr {
     let mut b = Enr::builder();
     b.seq(seq);
-    if let SocketAddr::V4(a) = addr {
+    if let Some(SocketAddr::V4(a)) = addr {
         b.ip4(*a.ip()).udp4(a.port());
     }
     b.build(key).expect("record")
@@ -381,9 +385,14 @@ impl World {
             let addr = node_addr(i);
             let seq = *cfg.seqs.get(i).unwrap_or(&2) as u64 + 1;
             let advertised = if cfg.nat_peers.contains(&(i as u8)) {
-                SocketAddr::new(IpAddr::V4(Ipv4Addr::new(10, 99, 0, 1 + i as u8)), 4000 + i as u16)
+                match cfg.nat_kind % 4 {
+                    0 => Some(SocketAddr::new(IpAddr::V4(Ipv4Addr::new(10, 99, 0, 1 + i as u8)), 4000 + i as u16)),
+                    1 => Some(SocketAddr::new(addr.ip(), addr.port() + 1000)),
+                    2 => Some(SocketAddr::new(IpAddr::V4(Ipv4Addr::new(10, 99, 0, 1 + i as u8)), addr.port())),
+                    _ => None,
+                }
             } else {
-                addr
+                Some(addr)
             };
             let enr = node_record(&key, advertised, seq);
             let older_enr = node_record(&key, advertised, seq - 1);
